@@ -723,6 +723,8 @@ int mpq_EGlpNumReadStrXc (mpq_t var,
 	  cn = 0;
 	int bad_exp = 0;
 	int any_dig = 0;
+	char unsigned e_open = 0;			/* an exponent marker without a digit behind it (yet) */
+	int e_at = 0;									/* where that marker stands */
 	mpq_t den[2];
 	mpq_init (den[0]);
 	mpq_init (den[1]);
@@ -774,6 +776,7 @@ int mpq_EGlpNumReadStrXc (mpq_t var,
 				else
 					l_exp = 10 * l_exp + c - '0';
 				a_exp_sgn = 0;
+				e_open = 0;
 			}
 			a_sgn = 0;
 			break;
@@ -798,8 +801,14 @@ int mpq_EGlpNumReadStrXc (mpq_t var,
 			a_sgn = 0;
 			a_exp = 0;
 			a_exp_sgn = 1;
+			e_open = 1;
+			e_at = n_char;
 			break;
 		case '/':
+			/* "2e/3": the exponent of the numerator is missing */
+			if (e_open)
+				bad_exp = 1;
+			e_open = 0;
 			if (exp_sgn)
 				l_exp = -l_exp;
 			if (l_exp > 0)
@@ -829,6 +838,13 @@ int mpq_EGlpNumReadStrXc (mpq_t var,
 		}
 		/* advance the reading character */
 		c = str[++n_char];
+	}
+	/* a marker (and a sign) with no exponent behind it is not part of the
+	 * number: "3ex" is 3 times ex */
+	if (e_open)
+	{
+		n_char = e_at;
+		exp_sgn = 0;
 	}
 	/* a sign or a '.' alone is not a number */
 	if (bad_exp || !any_dig)
